@@ -329,6 +329,16 @@ func (c *Ctx) checkFanoutSemantics(r *Report, ro *Roles, rule string) {
 			if loggerI != nil && types.Identical(st.Field(i).Type().Underlying(), loggerI) {
 				ownsChildren = true
 			}
+			// … or concrete children (an inner logger, an appender) it creates itself
+			if lifeI := c.logIface("Lifecycle"); lifeI != nil && !st.Field(i).Exported() && !st.Field(i).Embedded() {
+				ft := st.Field(i).Type()
+				if sl, ok := ft.Underlying().(*types.Slice); ok {
+					ft = sl.Elem()
+				}
+				if types.Implements(ft, lifeI) || types.Implements(types.NewPointer(ft), lifeI) {
+					ownsChildren = true
+				}
+			}
 		}
 		if ownsChildren {
 			continue
